@@ -31,16 +31,16 @@ type c18User struct {
 
 type c18Val struct {
 	XMLName xml.Name `json:"-" form:"-" xml:"val"`
-	ID      int      `json:"id" form:"id" xml:"id"`
-	Name    string   `json:"name" form:"name" xml:"name"`
-	Ok      bool     `json:"ok" form:"ok" xml:"ok"`
-	Tags    []string `json:"tags" form:"tags" xml:"tags"`
-	Score   int64    `json:"score" form:"score" xml:"score"`
+	ID      int      `json:"id" form:"id" query:"id" xml:"id"`
+	Name    string   `json:"name" form:"name" query:"name" xml:"name"`
+	Ok      bool     `json:"ok" form:"ok" query:"ok" xml:"ok"`
+	Tags    []string `json:"tags" form:"tags" query:"tags" xml:"tags"`
+	Score   int64    `json:"score" form:"score" query:"score" xml:"score"`
 }
 
 type c18Checked struct {
-	Name string `json:"name" form:"name" xml:"name" validate:"required|minLen:3"`
-	Age  int    `json:"age" form:"age" xml:"age" validate:"min:1"`
+	Name string `json:"name" form:"name" query:"name" xml:"name" validate:"required|minLen:3"`
+	Age  int    `json:"age" form:"age" query:"age" xml:"age" validate:"min:1"`
 }
 
 var c18Strings = []string{"", "a", "héllo wörld", "a&b=c", "x;y", "1,2", "<tag>", "\"q\"", "tab\there", "日本", "a+b c", "%41", "line\nbreak"}
